@@ -187,6 +187,16 @@ def run(rep: Report, tier: str) -> None:
 		ro.check(app_i is not None and app_i > loop_i, 'append-after-recursion', okr.where, 'the type key must be appended after the attributes were visited (post-order)')
 		cond_loop = isinstance(body[loop_i], ast.For) and not any(isinstance(x, (ast.Continue, ast.Break)) for x in ast.walk(body[loop_i]))
 		ro.check(cond_loop, 'recursion-unconditional', okr.where, 'the attribute walk skips or stops early for some attributes')
+	# a key that enters the order as a *reference* (symbol.types.fullyname) brings the dependencies of the declaration stored under that key:
+	# the row written for it lists that declaration's own attrs (e.g. its template types), which import_json looks up
+	rx = FI(okr)
+	ref_appends = [c_ for c_ in nodes(rx, ast.Call) if isinstance(c_.func, ast.Attribute) and c_.func.attr == 'append' and unparse(c_.func.value) == ord_p and c_.args and unparse(c_.args[0]).endswith('.types.fullyname')]
+	if not ref_appends:
+		ro.skip('declaration-dependencies-first', okr.where, '_order_keys_recursive no longer appends <symbol>.types.fullyname')
+	for c_ in ref_appends:
+		k = unparse(c_.args[0])
+		decl_walks = [w for w in calls(rx, '_order_keys_recursive') if w.lineno < c_.lineno and any(isinstance(x, (ast.Subscript, ast.Call)) and '__items' in unparse(x) and k in unparse(x) for a in w.args for x in ast.walk(a))]
+		ro.check(bool(decl_walks), 'declaration-dependencies-first', (DB, c_.lineno), f'`{unparse(c_)}` lists a type key reached through a reference without first walking the declaration stored under that key (self.__items[{k}]): a class referenced before its own turn (forward reference `-> \'Gen[int]\'` above `T = TypeVar(...)` / `class Gen(Generic[T])`) is exported before the template types its row refers to, and import_json raises SymbolNotDefined', unparse(c_))
 	okx = X(ok_)
 	rec_calls = calls(okx, '_order_keys_recursive')
 	own = [c_ for c_ in nodes(okx, ast.Call) if isinstance(c_.func, ast.Attribute) and c_.func.attr == 'append' and c_.args and isinstance(c_.args[0], ast.Name)]
